@@ -182,6 +182,45 @@ def corpus():
     for n in (0, 1, 4, 5, 6, 7):
       frames["lldp_chassis_sub%d_len%d" % (sub, n)] = lldp_frame(sub, bytes(range(1, n + 1)), 3, bytes(6))
       frames["lldp_port_sub%d_len%d" % (sub, n)] = lldp_frame(4, bytes(6), sub, bytes(range(1, n + 1)))
+  # ICMPv6 messages of every type the module has a class for, WITH A VALID CHECKSUM (the type-specific parsers only run when
+  # the checksum verifies; added 2026-09-25 after a sub-agent noticed that printing / re-serialising several of them raises)
+  def icmp6_frame(body):
+    s6, d6 = bytes.fromhex("fe800000000000000000000000000001"), bytes.fromhex("fe800000000000000000000000000002")
+    ph = s6 + d6 + bytes([0, 0, len(body) >> 8, len(body) & 255, 0, 0, 0, 58])
+    z = ph + body[:2] + bytes(2) + body[4:]
+    z = z + (bytes(1) if len(z) % 2 else b"")
+    tot = sum(z[i] * 256 + z[i + 1] for i in range(0, len(z), 2))
+    while tot >> 16:
+      tot = (tot & 0xffff) + (tot >> 16)
+    c = (~tot) & 0xffff
+    body = body[:2] + bytes([c >> 8, c & 255]) + body[4:]
+    return mac + bytes.fromhex("86dd") + bytes.fromhex("60000000") + bytes([len(body) >> 8, len(body) & 255, 58, 255]) + s6 + d6 + body
+  tgt = bytes.fromhex("fe8000000000000000000000000000aa")
+  o_sll, o_tll = bytes([1, 1]) + bytes(range(6)), bytes([2, 1]) + bytes(range(6))
+  o_mtu = bytes([5, 1, 0, 0, 0, 0, 5, 220])
+  o_pfx = bytes([3, 4, 64, 0xc0]) + bytes([0, 0, 0, 100, 0, 0, 0, 50]) + bytes(4) + tgt
+  quoted = bytes.fromhex("60000000") + bytes([0, 8, 17, 64]) + tgt + tgt + bytes(8)
+  for nm, body in (("unreach", bytes([1, 0, 0, 0]) + bytes(4) + quoted), ("too_big", bytes([2, 0, 0, 0, 0, 0, 5, 0]) + quoted),
+                   ("time_exceeded", bytes([3, 0, 0, 0]) + bytes(4) + quoted), ("param_problem", bytes([4, 0, 0, 0, 0, 0, 0, 6]) + quoted),
+                   ("echo_request", bytes([128, 0, 0, 0, 0, 1, 0, 2]) + b"ping"), ("echo_reply", bytes([129, 0, 0, 0, 0, 1, 0, 2]) + b"ping"),
+                   ("mld_query", bytes([130, 0, 0, 0, 0, 10, 0, 0]) + tgt), ("mld_report", bytes([131, 0, 0, 0, 0, 0, 0, 0]) + tgt),
+                   ("router_solicitation", bytes([133, 0, 0, 0]) + bytes(4) + o_sll),
+                   ("router_advertisement", bytes([134, 0, 0, 0, 64, 0x80, 7, 8]) + bytes(8) + o_sll + o_mtu + o_pfx),
+                   ("neighbor_solicitation", bytes([135, 0, 0, 0]) + bytes(4) + tgt + o_sll),
+                   ("neighbor_solicitation_no_option", bytes([135, 0, 0, 0]) + bytes(4) + tgt),
+                   ("neighbor_advertisement", bytes([136, 0, 0, 0, 0x60, 0, 0, 0]) + tgt + o_tll),
+                   ("redirect", bytes([137, 0, 0, 0]) + bytes(4) + tgt + tgt)):
+    frames["icmpv6_" + nm] = icmp6_frame(body)
+  # TCP headers filled to the 60-byte maximum with one long option of an unknown kind / a selective acknowledgement / MPTCP
+  def tcp_frame(opts):
+    opts = opts + bytes([1]) * (-len(opts) % 4)
+    seg = bytes([0, 1, 0, 2, 0, 0, 0, 3, 0, 0, 0, 4, ((20 + len(opts)) // 4) << 4, 0x10, 0, 100, 0, 0, 0, 0]) + opts + b"payload"
+    return mac + bytes.fromhex("0800") + ip4(6, seg)
+  frames["tcp_unknown_option_38_bytes"] = tcp_frame(bytes([99, 38]) + bytes(range(36)))
+  frames["tcp_unknown_option_40_bytes"] = tcp_frame(bytes([99, 40]) + bytes(range(38)))
+  frames["tcp_sack_two_blocks"] = tcp_frame(bytes([5, 18]) + bytes(range(16)))
+  frames["tcp_mptcp_capable"] = tcp_frame(bytes([30, 12, 0x00, 0x81]) + bytes(8))
+  frames["tcp_mptcp_dss"] = tcp_frame(bytes([30, 8, 0x20, 0x01]) + bytes(4))
   dns = bytes([0, 5, 1, 0, 0, 1, 0, 0, 0, 0, 0, 0]) + b"\x07example\x03com\x00" + bytes([0, 1, 0, 1])
   frames["dns_raw"] = B.eth(0x800, B.ip(17, B.udp(5555, 53, dns))).pack()
   return frames
